@@ -450,4 +450,76 @@ def endBuf (w : World) (x : Which) : World × Bool :=
   let X := w.get x
   (w.set x { X with finished := true }, checkTop X.rng X.root)
 
+/-! ## One line on one buffer (what the C03 driver executes; `Driver/C03.lean` only parses and prints) -/
+
+inductive Ans where
+  | bad
+  | panic
+  | panicDrop
+  /-- a call that returned -/
+  | res (r : Except Err Ret) (evs : List Ev)
+  deriving Inhabited
+
+/-- The live pointer of the innermost level. -/
+def curPtr (s : Shape) (X : PBuf) : Option (List TStep × Shape × PtrTree) := locTree s X.root X.cur
+
+/-- `leave`: drop the innermost accessor. -/
+def execLeave (w : World) (x : Which) : World × Ans :=
+  let X := w.get x
+  if X.levels.length ≤ 1 then (w, .bad)
+  else (w.set x { X with levels := X.levels.dropLast }, .res (.ok .unit) [])
+
+/-- `reborrow`: drop every accessor (the top one runs `ExclusiveTopDrop::drop`), then a new top wrapper. -/
+def execReborrow (s : Shape) (w : World) (x : Which) : World × Ans :=
+  let X := w.get x
+  if !checkTop X.rng X.root then (w.set x { X with finished := true }, .panicDrop)
+  else
+    match getPtr s X.mem.bytes X.base with
+    | .ok (root, _) => (w.set x { X with root := root, levels := [[]] }, .res (.ok .unit) [])
+    | .error _ => (w.set x { X with levels := [[]] }, .res (.error .parse) [])
+
+/-- `enter st`: take the child accessor and keep it alive. `keepBad`: after a swap the navigation's side
+effects remain even when the line turns out inapplicable. -/
+def execEnter (s : Shape) (w : World) (x : Which) (keepBad : Bool) (st : Step) : World × Ans :=
+  let X := w.get x
+  match curPtr s X with
+  | none => (w, .bad)
+  | some (tp0, sh0, t0) =>
+    match walk w false sh0 t0 [st] with
+    | (t0', out) =>
+      let w' := w.set x { X with root := (replaceAt X.root tp0 t0').getD X.root }
+      match out with
+      | .bad => (if keepBad then w' else w, .bad)
+      | .panic => (w'.set x { (w'.get x) with finished := true }, .panic)
+      | .ioob => (w', .res (.error .ioob) [])
+      | .perr => (w', .res (.error .parse) [])
+      | .ok _ _ =>
+        let X' := w'.get x
+        (w'.set x { X' with levels := X'.levels ++ [X'.cur ++ [st]] }, .res (.ok .unit) [])
+
+/-- An op line `op p …`: take the accessor chain `p` below the innermost live level, then `opAt`.
+`mk` builds the op once the target's shape is known (`replace` parses its value against it). -/
+def execOp (s : Shape) (w : World) (x : Which) (keepBad : Bool) (p : List Step) (mk : Shape → Option Op) :
+    World × Ans :=
+  let X := w.get x
+  match curPtr s X with
+  | none => (w, .bad)
+  | some (tp0, sh0, t0) =>
+    match walk w false sh0 t0 p with
+    | (t0', out) =>
+      let w' := w.set x { X with root := (replaceAt X.root tp0 t0').getD X.root }
+      match out with
+      | .bad => (if keepBad then w' else w, .bad)
+      | .panic => (w'.set x { (w'.get x) with finished := true }, .panic)
+      | .ioob => (w', .res (.error .ioob) [])
+      | .perr => (w', .res (.error .parse) [])
+      | .ok tp sh =>
+        match mk sh with
+        | none => (if keepBad then w' else w, .bad)
+        | some op =>
+          match opAt w' x ⟨s, X.cur ++ p⟩ (tp0 ++ tp) sh op with
+          | (_, .bad) => (if keepBad then w' else w, .bad)
+          | (w2, .panic) => (w2, .panic)
+          | (w2, .done r evs) => (w2, .res r evs)
+
 end Unsized.PtrM
